@@ -31,6 +31,13 @@ def _header(fam):
         return neuropixel.trace_header(version=1)
     if fam == "NP2":
         return neuropixel.trace_header(version=2)
+    if fam == "NPultra":
+        return neuropixel.trace_header(version="NPultra")
+    if fam == "NP1-shuffled":
+        # a re-ordered channel map: spatial neighbours are far apart in channel index
+        hh = neuropixel.trace_header(version=1)
+        perm = (np.arange(384) * 67) % 384
+        return {k: np.asarray(v)[perm].copy() for k, v in hh.items()}
     return neuropixel.trace_header(version=2, nshank=4)
 
 
@@ -49,6 +56,10 @@ def interp_cases(tier, seed):
     for fam in ("NP1", "NP2", "NP2.4"):
         out.append((fam, "in-outside-block", [0]))
     out.append(("NP1", "geometry-sequence", [0]))
+    # clusters of adjacent bad channels of several widths all over the probe, on layouts whose spatial neighbours are not index neighbours too
+    for fam in ("NP1", "NP2", "NP2.4", "NPultra", "NP1-shuffled"):
+        for width in (1, 4, 12, 24):
+            out.append((fam, "clusters", [width]))
     return out
 
 
@@ -148,6 +159,12 @@ def interp_check(case):
                 labels[pos] = lab
             for name, hh in hs:
                 ntr += _interp_one(hh, labels, data, seen, "%s (after other geometries with the same labels) bad=%r" % (name, labs))
+    elif mode == "clusters":
+        w = par[0]
+        for start in (0, 30, 44, 47, 48, 90, 96, 143, 190, 250, 336, nc - w - 1, nc - w):
+            labels = np.zeros(nc)
+            labels[start:start + w] = 1
+            ntr += _interp_one(h, labels, data[:2], seen, "%s cluster of %d bad channels from channel %d" % (fam, w, start))
     elif mode == "in-outside-block":
         # dead / noisy channels whose only neighbours within reach are labelled outside the brain: they must be rebuilt from them
         for pos in range(nc - 14, nc - 5):
@@ -250,14 +267,17 @@ def detect_check(case):
 # ------------------------------------------------------------------ labels from a file = per-channel mode over its batches
 def file_cases(tier, seed):
     # variant 3: a file whose last three batches are blank (zero padded stretch) - blank batches vote like any other batch
-    return [("bin", 0), ("cbin", 1), ("bin", 3)] if tier == "quick" else [("bin", 0), ("cbin", 1), ("bin", 2), ("bin", 3), ("cbin", 3)]
+    # variant 4: a recording shorter than batches x duration (1.2 s for 10 batches of 0.3 s): the batches overlap, each of them still votes
+    return [("bin", 0), ("cbin", 1), ("bin", 3), ("bin", 4)] if tier == "quick" else [("bin", 0), ("cbin", 1), ("bin", 2), ("bin", 3), ("cbin", 3), ("bin", 4), ("cbin", 4)]
 
 
 def file_check(case):
     suffix, variant = case
     d = synth.proc_scratch(clean=True)
-    nb, bd = (7, 0.3) if variant != 3 else (10, 0.3)
+    nb, bd = (7, 0.3) if variant < 3 else (10, 0.3)
     ns = int(round(nb * bd * FS))          # the batches tile the file without overlap
+    if variant == 4:
+        ns = int(1.2 * FS)
     bg, common, gain, indep = background(ns=ns, seed=SEED[0] + variant)
     raw = bg.copy()
     nc = raw.shape[0]
@@ -266,6 +286,8 @@ def file_check(case):
     # faults present in only some of the ten batches
     plan = {50: (1, 4), 120: (1, 3), 200: (2, 5), 300: (2, 2), 10: (1, 7)}
     mixed = {250: ((1, 2), (2, 2))}          # 3 clean, 2 dead, 2 noisy batches: the mode is 0 (the median would be 1)
+    if variant == 4:
+        plan, mixed = {101: (1, nb), 200: (2, nb)}, {}          # faulty throughout the short file
     rng = np.random.default_rng(variant)
     for ch, (lab, nbat) in plan.items():
         for bi in range(nbat):
@@ -317,7 +339,7 @@ def file_check(case):
             bad = np.flatnonzero(got[clear] != exp[clear]) if got.shape == (nc,) else []
             v.append(("detect-file:mode", "labels from the file differ from the per-channel mode over the %d batches at channels %r" % (nb, np.flatnonzero(clear)[bad][:6].tolist())))
         # and the plan: majority faults are reported, minority ones are not
-        if got.shape == (nc,) and clear[250] and got[250] != 0:
+        if got.shape == (nc,) and clear[250] and got[250] != 0 and variant != 4:
             v.append(("detect-file:plan", "channel 250 clean in 3, dead in 2 and noisy in 2 of 7 batches is labelled %r (mode is 0)" % got[250]))
         for ch, (lab, nbat) in plan.items():
             want = lab if nbat > nb / 2 else 0
